@@ -39,10 +39,11 @@ def host_entry(g, variant, gid=None):
     return Entry(gid, g, 'host%d' % variant, hg.tla_json(), hg.desc_text())
 
 
-def gen_entry(g, gid=None, dflt=(), limits=None):
+def gen_entry(g, gid=None, dflt=(), limits=None, ctx=()):
     gid = gid or ('%s@gen' % g.name)
-    e = Entry(gid, g, 'gen', gen_tu.tla_json(g, gid, dflt))
+    e = Entry(gid, g, 'gen', gen_tu.tla_json(g, gid, dflt, ctx))
     e.dflt = tuple(dflt)
+    e.ctx = tuple(ctx)
     e.limits = limits
     if limits:
         e.tla['deflimits'] = False
@@ -76,9 +77,9 @@ def lex_entry(name, terms):
     return e
 
 
-def add_jobs(entry, inputs, buf=0, stream=0, verbose=True, ws=True, nl=True, tag=''):
+def add_jobs(entry, inputs, buf=0, stream=0, verbose=True, ws=True, nl=True, tag='', ctx=0):
     for b in inputs:
-        entry.jobs.append(('%s:%s%d' % (entry.gid, tag, len(entry.jobs)), buf, stream, int(verbose), int(ws), int(nl), list(b)))
+        entry.jobs.append(('%s:%s%d' % (entry.gid, tag, len(entry.jobs)), buf, stream, int(verbose), int(ws), int(nl), list(b), ctx))
 
 
 def run_harness(entries, workname):
@@ -90,7 +91,7 @@ def run_harness(entries, workname):
     for e in gens:
         src = os.path.join(work, e.gid.replace('@', '_').replace('/', '_') + '.cpp')
         with open(src, 'w') as f:
-            f.write(gen_tu.clex_tu(e.g, e.gid) if getattr(e, 'clex', False) else gen_tu.lex_tu(e.gid, e.lexterms) if hasattr(e, 'lexterms') else gen_tu.tu_source(e.g, e.gid, getattr(e, 'dflt', ()), getattr(e, 'limits', None)))
+            f.write(gen_tu.clex_tu(e.g, e.gid) if getattr(e, 'clex', False) else gen_tu.lex_tu(e.gid, e.lexterms) if hasattr(e, 'lexterms') else gen_tu.tu_source(e.g, e.gid, getattr(e, 'dflt', ()), getattr(e, 'limits', None), getattr(e, 'ctx', ())))
         specs.append(('gen_' + e.gid.replace('@', '_'), src, ()))
     gbins = vlib.build_many(specs) if specs else {}
     runs = []
@@ -143,8 +144,9 @@ def run_harness(entries, workname):
 def _write_jobs(path, entries):
     with open(path, 'w') as f:
         for e in entries:
-            for (jid, buf, stream, v, ws, nl, b) in e.jobs:
-                f.write('%s %d %d %d %d %d %s\n' % (jid, buf, stream, v, ws, nl, gram.hexbytes(b)))
+            for job in e.jobs:
+                (jid, buf, stream, v, ws, nl, b) = job[:7]
+                f.write('%s %d %d %d %d %d %s %d\n' % (jid, buf, stream, v, ws, nl, gram.hexbytes(b), job[7] if len(job) > 7 else 0))
 
 
 def tlc_inputs(entries, work, name, with_traces=True, keep_lex=False):
